@@ -17,14 +17,15 @@ import warnings
 SIGS = ["stop", "start", "descriptor", "event", "datum", "resource", "event_page", "datum_page",
         "stream_resource", "stream_datum", "bulk_datum", "bulk_events"]
 
-_loop = None
+_loop = None       # (pid, loop): one background event loop per process, shared by the RunEngines of all cases
 
 
 def _get_loop():
     global _loop
-    if _loop is None:
-        _loop = asyncio.new_event_loop()
-    return _loop
+    import os
+    if _loop is None or _loop[0] != os.getpid():
+        _loop = (os.getpid(), asyncio.new_event_loop())
+    return _loop[1]
 
 
 class Det:
@@ -86,8 +87,9 @@ class World:
 
     def _invoke(self, i, name, doc):
         cd = self.canon(name, doc)
-        self.log.append(("call", i, cd))
-        if self._matches(i, cd):
+        r = self._matches(i, cd)
+        self.log.append(("call", i, cd, r))
+        if r:
             raise ValueError("cb%d" % i)
 
     def _make(self, i, f):
@@ -102,18 +104,6 @@ class World:
                     world._invoke(i, name, doc)
             return Owner()
         if f["kind"] == "obj":
-            class Keyed:
-                def __init__(self, key):
-                    self.key = key
-
-                def __eq__(self, other):
-                    return isinstance(other, Keyed.__mro__[0].__bases__[0]) and getattr(other, "key", None) == self.key
-
-                def __hash__(self):
-                    return hash(("keyed", self.key))
-
-                def __call__(self, name, doc):
-                    world._invoke(i, name, doc)
             return _KeyedCallable(f["eq"], lambda name, doc: world._invoke(i, name, doc))
         raise ValueError(f["kind"])
 
@@ -218,8 +208,11 @@ def run_history(case):
                     elif m[0] == "null":
                         yield Msg("null")
                     elif m[0] == "sub":
+                        w.log.append(("try_sub", m[1], m[2]))
                         toks.append((yield Msg("subscribe", None, w.callable(m[1]), m[2])))
+                        w.log.append(("sub", m[1], m[2], int(toks[-1])))
                     elif m[0] == "unsub":
+                        w.log.append(("unsub", m[1]))
                         if m[2] == "kw":
                             yield Msg("unsubscribe", token=m[1])
                         else:
@@ -236,16 +229,20 @@ def run_history(case):
             except Exception as e:
                 outcome = _exc_name(e)
             ems = []
+            timeline = []       # in-plan subscribe/unsubscribe markers interleaved with emission indices
             for ent in w.log:
                 if ent[0] == "emit":
                     ems.append([ent[1], []])
+                    timeline.append(["emit", len(ems) - 1])
+                elif ent[0] in ("sub", "unsub", "try_sub"):
+                    timeline.append(list(ent))
                 else:
                     if not ems or ems[-1][0] != ent[2]:
                         ems.append([["ORPHAN"] + list(ent[2]), []])     # a call without a preceding emit
-                    ems[-1][1].append(ent[1])
+                    ems[-1][1].append([ent[1], ent[3]])
             if RE.state != "idle":
                 outcome = [outcome, "state=" + str(RE.state)]
-            out.append({"ems": ems, "toks": [int(t) for t in toks], "out": outcome})
+            out.append({"ems": ems, "toks": [int(t) for t in toks], "out": outcome, "timeline": timeline})
         else:
             raise AssertionError(op)
     return {"ops": out, "doc_names": [d.name for d in DocumentNames], "subs_names": list(SUBS_NAMES)}
@@ -368,7 +365,7 @@ def cobs(o):
         cd = cdoc(d)
         if cd is None:
             return None
-        ems.append("(E %s %s)" % (cd, cl(inv)))
+        ems.append("(E %s %s)" % (cd, cl(inv, lambda c: "(%d, %s)" % (c[0], cb(c[1])))))
     if o["out"] == "ok":
         out = "Done"
     else:
